@@ -294,6 +294,7 @@ func registerStubs(ex *Exec) {
 				return nil
 			}
 		}
+		ex.lockOrder(st, site, args[0])
 		ex.syncWrite(st, args[0], "mutex", func(*smt.Term) *smt.Term { return bv64(1) })
 		return nil
 	}
@@ -1072,5 +1073,52 @@ func registerLedStubs(ex *Exec) {
 			return mergeV(ex.freshBool("led_update_fails"), Value(&IfaceV{T: nil, V: ex.newOpaque("error")}), Value(Nil))
 		}
 		return Nil
+	}
+}
+
+// lockOrder (flag "locks"): whenever mutex m is taken while another mutex h is held, the pair (h before m) is
+// remembered; taking them in the opposite order anywhere later in the run is a potential deadlock between the
+// goroutines that run these code paths concurrently in the application (lock-order inversion).
+func (ex *Exec) lockOrder(st *State, site ssa.Instruction, m Value) {
+	p, ok := m.(*PtrV)
+	if !ok {
+		return
+	}
+	mc := ex.syncCell(st, p, "mutex")
+	seen := false
+	for _, c := range ex.lockCells {
+		if c == mc {
+			seen = true
+		}
+	}
+	if !seen {
+		ex.lockCells = append(ex.lockCells, mc)
+	}
+	for _, h := range ex.lockCells {
+		if h == mc {
+			continue
+		}
+		cur, ok := st.heap[h].(*smt.Term)
+		if !ok {
+			continue
+		}
+		held := smt.Not(smt.Eq(cur, bv64(0)))
+		if held.IsFalse() {
+			continue
+		}
+		if where, inv := ex.lockPairs[[2]int{mc, h}]; inv {
+			ex.outcome("assert", "C16: two mutexes are always taken in the same order (here the opposite of "+where+"): goroutines taking them in opposite orders can deadlock", site, smt.And(st.pc, held))
+		}
+		if ex.lockPairs == nil {
+			ex.lockPairs = map[[2]int]string{}
+		}
+		if _, ok := ex.lockPairs[[2]int{h, mc}]; !ok {
+			pos := ""
+			if site != nil {
+				q := ex.Prog.Fset.Position(site.Pos())
+				pos = fmt.Sprintf("%s:%d", shortFile(q.Filename), q.Line)
+			}
+			ex.lockPairs[[2]int{h, mc}] = pos
+		}
 	}
 }
